@@ -379,7 +379,11 @@ class ModelGen:
     def loop_stmt(self, g: G, depth: int, o: str, force: str | None = None):
         r = self.rng
         form = r.choice(["for", "for", "while", "while", "forbreak", "forbreak", "forcond", "forcond"])
-        if force:
+        if force == "condpass":
+            # directed: trip count AND a run-time initial condition, the body only threads the condition through
+            # (`cond_out = Identity(cond_in)`) — the conjunction is rare in the random forms
+            form = "forcond"
+        elif force:
             # directed: trip count, NO initial condition, cond_out = Identity(<computed boolean>) (or computed directly)
             form = "forbreak"
         if self.refusal == "nostop":
@@ -416,7 +420,7 @@ class ModelGen:
             self.node(sg, r.choice(["Neg", "Identity", "Tanh"]), [self.pick(sg, "F")], [so])
             souts.append(so)
         cout = self.namer.new()
-        cond_passthrough = form == "forcond" and r.random() < 0.6
+        cond_passthrough = form == "forcond" and (r.random() < 0.6 or force == "condpass")
         if cond_passthrough:
             self.flags.add("loop_cond_passthrough")
         if form in ("for", "nostop"):
@@ -424,6 +428,8 @@ class ModelGen:
         elif cond_passthrough:
             # the condition is threaded through unchanged, in one of several shapes
             shape = r.choice(["identity", "identity", "identity2", "and", "notnot"])
+            if force == "condpass":
+                shape = "identity"
             self.flags.add("loop_passthrough_" + shape)
             if shape == "identity":
                 self.node(sg, "Identity", [cin], [cout])
@@ -437,6 +443,12 @@ class ModelGen:
                 t = self.namer.new()
                 self.node(sg, "Not", [cin], [t])
                 self.node(sg, "Not", [t], [cout])
+        elif force == "constfalse" or (not force and r.random() < 0.25):
+            # cond_out = Constant(<bool>): False is "run at most once"; True (only with a trip count) is how some
+            # exporters spell a plain for-loop.  The value matters, not only the element type.
+            constc = False if (force or form == "while") else r.choice([False, True])
+            self.node(sg, "Constant", [], [cout], value=H.make_tensor("value", TP.BOOL, [], [constc]))
+            self.flags.add("loop_cond_const_" + str(constc).lower())
         else:
             tot = self.namer.new()
             self.node(sg, "ReduceSum", [s0], [tot], keepdims=0)
@@ -457,16 +469,17 @@ class ModelGen:
             [H.make_tensor_value_info(cout, TP.BOOL, [])] + [H.make_tensor_value_info(s, TP.FLOAT, [3]) for s in souts],
         )
         if form in ("for", "forbreak", "forcond"):
-            if r.random() < 0.5 and g.pool("I"):
+            if force != "constfalse" and r.random() < 0.5 and g.pool("I"):
                 trip = self.pick(g, "I")
             else:
-                trip = self.const(g, H.make_tensor("value", TP.INT64, [], [r.choice([0, 1, 3, 4])]))
+                # the directed constant-False loop needs a trip count >= 2 to be observable
+                trip = self.const(g, H.make_tensor("value", TP.INT64, [], [r.choice([3, 4] if force == "constfalse" else [0, 1, 3, 4])]))
                 self.flags.add("trip_const")
         else:
             trip = ""
         if form == "forcond":
             # trip count AND an initial condition that is a run-time value (graph input when there is one)
-            cond = self.pick(g, "C") if g.pool("C") and r.random() < 0.7 else self.bool_scalar(g)
+            cond = self.pick(g, "C") if g.pool("C") and (r.random() < 0.7 or force == "condpass") else self.bool_scalar(g)
         elif form == "while" or (form == "forbreak" and not force and r.random() < 0.3):
             cond = self.pick(g, "C") if g.pool("C") and r.random() < 0.3 else self.bool_scalar(g)
         else:
@@ -490,7 +503,7 @@ class ModelGen:
             n = self.namer.new()
             g.add("I", n)
             inputs.append(H.make_tensor_value_info(n, TP.INT64, []))
-        if r.random() < 0.4 and self.allow_loops:
+        if (r.random() < 0.4 or self.force_loop == "condpass") and self.allow_loops:
             n = self.namer.new()
             g.add("C", n)
             g.add("S", n)
@@ -745,3 +758,190 @@ def script_source(rng, name: str, typed: bool = True):
     rty = " -> FLOAT[3]" if typed else ""
     src = f"@script()\ndef {name}({', '.join(sig)}){rty}:\n" + "\n".join(lines) + "\n"
     return src, nin, has_n, kinds
+
+
+# --------------------------------------------------------------------------- the same ONNX name in two scopes
+# ONNX value names are unique per graph *and its enclosing graphs*; sibling subgraphs (the two branches of an If, the
+# bodies of two Loops, a branch and a later Loop body, two functions) may define the same name.  The generators above
+# hand out globally unique names, so this class is produced by a renaming of subgraph-local names afterwards.
+
+
+def _rename_graph(g: onnx.GraphProto, mp: dict) -> None:
+    for n in g.node:
+        for i, x in enumerate(n.input):
+            if x in mp:
+                n.input[i] = mp[x]
+        for i, x in enumerate(n.output):
+            if x in mp:
+                n.output[i] = mp[x]
+        for a in n.attribute:
+            if a.HasField("g"):
+                _rename_graph(a.g, mp)
+            for sg in a.graphs:
+                _rename_graph(sg, mp)
+    for vi in list(g.input) + list(g.output) + list(g.value_info):
+        if vi.name in mp:
+            vi.name = mp[vi.name]
+    for t in g.initializer:
+        if t.name in mp:
+            t.name = mp[t.name]
+
+
+def _is_inlinable_const(n: onnx.NodeProto) -> bool:
+    if n.op_type != "Constant" or not n.attribute or not n.attribute[0].HasField("t"):
+        return False
+    t = n.attribute[0].t
+    if t.data_type not in (TP.FLOAT, TP.INT64) or 0 in t.dims:
+        return False
+    return len(t.dims) == 0 or (len(t.dims) == 1 and t.dims[0] < 5)
+
+
+def own_locals(g: onnx.GraphProto) -> dict:
+    """name -> 'const' (output of a Constant node that `inline_const` may inline) | 'other', for the names the graph
+    itself defines (node outputs, graph inputs, initializers); nested subgraphs are not included."""
+    d = {i.name: "other" for i in g.input}
+    d.update({t.name: "other" for t in g.initializer})
+    for n in g.node:
+        for o in n.output:
+            if o:
+                d[o] = "const" if _is_inlinable_const(n) else "other"
+    return d
+
+
+def reuse_sibling_names(model: onnx.ModelProto, rng, p: float = 0.6, plain: bool = False) -> dict:
+    """Renames names local to a subgraph to names local to an *earlier sibling* subgraph of the same graph (the other
+    branch of the same If, the body of an earlier Loop, a branch of an earlier If).  A pure renaming of bound names:
+    the model denotes the same computation.  Pairs (inlinable Constant output, anything else) are preferred.
+    With `plain`, outputs of inlinable Constants take no part (no name is a constant in one scope and something else
+    in another).
+    Returns counters: reused names, and how many of them pair a constant with a non-constant definition."""
+    stats = {"reused": 0, "const_vs_other": 0}
+
+    def visit(g: onnx.GraphProto):
+        pool: dict = {}
+        for n in g.node:
+            for a in n.attribute:
+                if not a.HasField("g"):
+                    continue
+                sg = a.g
+                loc = own_locals(sg)
+                avail = {y: k for y, k in pool.items() if not (plain and k == "const")}
+                mp = {}
+                for x, kind in loc.items():
+                    if not avail or rng.random() >= p or (plain and kind == "const"):
+                        continue
+                    pref = [y for y, k in avail.items() if (k == "const") != (kind == "const") and "const" in (k, kind)]
+                    y = rng.choice(pref) if pref else rng.choice(sorted(avail))
+                    if "const" in (kind, avail[y]) and kind != avail[y]:
+                        stats["const_vs_other"] += 1
+                    del avail[y]
+                    mp[x] = y
+                    stats["reused"] += 1
+                if mp:
+                    _rename_graph(sg, mp)
+                pool.update(own_locals(sg))
+                visit(sg)
+
+    visit(model.graph)
+    return stats
+
+
+def scope_defs(proto) -> dict:
+    """name -> list of definition kinds ('const' | 'other') over every scope of the proto (main graph, every nested
+    subgraph, every model-local function) — one entry per defining site."""
+    out: dict = {}
+
+    def visit(g: onnx.GraphProto):
+        for x, k in own_locals(g).items():
+            out.setdefault(x, []).append(k)
+        for n in g.node:
+            for a in n.attribute:
+                if a.HasField("g"):
+                    visit(a.g)
+                for sg in a.graphs:
+                    visit(sg)
+
+    def visit_fn(f: onnx.FunctionProto):
+        for x in f.input:
+            out.setdefault(x, []).append("other")
+        for n in f.node:
+            for o in n.output:
+                if o:
+                    out.setdefault(o, []).append("const" if _is_inlinable_const(n) else "other")
+            for a in n.attribute:
+                if a.HasField("g"):
+                    visit(a.g)
+
+    if isinstance(proto, onnx.ModelProto):
+        visit(proto.graph)
+        for f in proto.functions:
+            visit_fn(f)
+    else:
+        visit_fn(proto)
+    return out
+
+
+def const_scope_clash(proto) -> list[str]:
+    """names defined at two or more sites of which at least one is an inlinable Constant and at least one other site
+    is a different definition (the class of C13-INLINE-SCOPE, fixed by e0cdb9e, together with inline_const=True)"""
+    return sorted(x for x, ks in scope_defs(proto).items() if len(ks) > 1 and "const" in ks)
+
+
+def declash(model: onnx.ModelProto) -> onnx.ModelProto:
+    """α-renames subgraph-local names so that every name has one defining site in the whole main graph (the
+    same computation, no name defined twice; kept as a debugging aid)."""
+    m = onnx.ModelProto()
+    m.CopyFrom(model)
+    seen: set = set(own_locals(m.graph))
+    k = [0]
+
+    def visit(g: onnx.GraphProto):
+        for n in g.node:
+            for a in n.attribute:
+                if not a.HasField("g"):
+                    continue
+                sg = a.g
+                mp = {}
+                for x in own_locals(sg):
+                    if x in seen:
+                        k[0] += 1
+                        mp[x] = f"{x}__s{k[0]}"
+                if mp:
+                    _rename_graph(sg, mp)
+                seen.update(own_locals(sg))
+                visit(sg)
+
+    visit(m.graph)
+    return m
+
+
+def sibling_witness() -> onnx.ModelProto:
+    """C13-INLINE-SCOPE: `t` is a Constant in the then-branch and a computed value in the else-branch."""
+    then_g = H.make_graph(
+        [H.make_node("Constant", [], ["t"], value=H.make_tensor("v", TP.FLOAT, [], [1.0])),
+         H.make_node("Identity", ["t"], ["r1"])],
+        "then_g", [], [H.make_tensor_value_info("r1", TP.FLOAT, [])])  # fmt: skip
+    else_g = H.make_graph(
+        [H.make_node("Add", ["x", "x"], ["t"]), H.make_node("Identity", ["t"], ["r2"])],
+        "else_g", [], [H.make_tensor_value_info("r2", TP.FLOAT, [])])  # fmt: skip
+    g = H.make_graph(
+        [H.make_node("If", ["c"], ["y"], then_branch=then_g, else_branch=else_g)], "g",
+        [H.make_tensor_value_info("c", TP.BOOL, []), H.make_tensor_value_info("x", TP.FLOAT, [])],
+        [H.make_tensor_value_info("y", TP.FLOAT, [])])  # fmt: skip
+    return H.make_model(g, opset_imports=[H.make_opsetid("", OPSET)], ir_version=8)
+
+
+def read_scope_witness() -> onnx.ModelProto:
+    """C13-READ-SCOPE: the inner If of the then-branch is dead, but its result name `a` is read in the else-branch."""
+    def vi(n, t=TP.FLOAT, s=(3,)):
+        return H.make_tensor_value_info(n, t, list(s))
+
+    inner = H.make_node(
+        "If", ["c"], ["a"],
+        then_branch=H.make_graph([H.make_node("Neg", ["x"], ["k1"])], "t", [], [vi("k1")]),
+        else_branch=H.make_graph([H.make_node("Abs", ["x"], ["k2"])], "e", [], [vi("k2")]))  # fmt: skip
+    then_g = H.make_graph([inner, H.make_node("Relu", ["x"], ["r1"])], "then_g", [], [vi("r1")])
+    else_g = H.make_graph([H.make_node("Tanh", ["x"], ["a"]), H.make_node("Identity", ["a"], ["r2"])], "else_g", [], [vi("r2")])
+    g = H.make_graph([H.make_node("If", ["c"], ["y"], then_branch=then_g, else_branch=else_g)], "g",
+                     [vi("c", TP.BOOL, ()), vi("x")], [vi("y")])  # fmt: skip
+    return H.make_model(g, opset_imports=[H.make_opsetid("", OPSET)], ir_version=8)
